@@ -12,7 +12,7 @@ def run(ctx):
     from .. import replay_ops
     deep = 2
     cfg = tlc.make_cfg(constants=dict(Depth=deep), spec="Spec", properties=["Hom", "SimplifiedNF", "Frame"])
-    r = tlc.run("OpAlgebra", cfg, timeout=3000)
+    r = tlc.run("OpAlgebra", cfg, vacuity=True, timeout=3000)
     ctx.add_tlc(r, f"OpAlgebra all programs of <= {deep} operations over 4 registers, 2 atom sets")
     if r["violated"]:
         ctx.violation(f"C15:spec:{r['violated']}", "OpAlgebra violates " + r["violated"], {"tlc": r.get("error_text", "")[:3000]})
